@@ -541,8 +541,12 @@ class Executor(Exec):
             env[fi.node.args.args[0].arg] = recv
         for gname in c.ghost:
             if gname not in env:
+                ga = (self.contract.ghost_args.get(c.key, {}) if self.contract is not None else {}).get(gname)
                 if gname in st.env:
                     env[gname] = st.env[gname]      # closure / ghost variables come from the caller's scope
+                elif ga is not None:
+                    # the caller's contract says which value the ghost parameter has at its call sites of this callee
+                    env[gname] = self.spec_eval(st, ga, dict(getattr(self, "env0", {}), **st.env), f"{c.key}.ghost.{gname}")
                 else:
                     raise Unsupported(f"call of {c.key}: closure variable {gname} not in scope")
         for lname, ltext in c.let:
@@ -747,6 +751,12 @@ class Executor(Exec):
             from . import tables
             res = self._seq_mutate(st, loc, cur, name, args)
             st.pc += tables.fact_outer_append_empty(cur, self.name_table(st, loc))
+            return res
+        if isinstance(cur.et, TSeq) and isinstance(cur.et.elem, TInt) and name == "append" and isinstance(args[0], VSeq) \
+                and isinstance(args[0].et, TInt):
+            from . import tables
+            res = self._seq_mutate(st, loc, cur, name, args)
+            st.pc += tables.fact_outer_append(cur, self.name_table(st, loc), args[0])
             return res
         return self._seq_mutate(st, loc, cur, name, args)
 
